@@ -516,17 +516,74 @@ func runClusterAcks(c *Ctx, r *Rng) {
 		} else {
 			d := cl.dataset(1, dsId)
 			lead := d.VerifPartitionAt(0).Raft().VerifStatus().Lead
+			srv := cl.nodes[lead].dmSrv
+			idx := cl.dataset(lead, dsId).VerifPartitionAt(0).Index()
+			// items for the batch update / batch remove, written while the group is healthy
+			for id := 30; id <= 33; id++ {
+				if _, e := srv.Insert(ctx, &pb.InsertRequest{DatasetId: dsId.Bytes(), Id: rid(id).Bytes(), Value: amath.Vector{3, 3}}); e != nil {
+					c.Note("set-up insert %d failed: %v", id, e)
+				}
+			}
 			cl.mu.Lock()
 			cl.raftDrop = func(from, to uint64) bool { return true } // cut the replicas off from each other
 			cl.mu.Unlock()
 			long, cancel := context.WithTimeout(ctx, 30*time.Second)
 			t := time.Now()
-			_, e := cl.nodes[lead].dmSrv.Insert(long, &pb.InsertRequest{DatasetId: dsId.Bytes(), Id: rid(7).Bytes(), Value: amath.Vector{1, 1}})
+			var wg sync.WaitGroup
+			var e error
+			var bi, bu, br *pb.BatchResponse
+			var ebi, ebu, ebr error
+			wg.Add(4)
+			go func() {
+				defer wg.Done()
+				_, e = srv.Insert(long, &pb.InsertRequest{DatasetId: dsId.Bytes(), Id: rid(7).Bytes(), Value: amath.Vector{1, 1}})
+			}()
+			go func() {
+				defer wg.Done()
+				bi, ebi = srv.BatchInsert(long, &pb.BatchRequest{DatasetId: dsId.Bytes(), Items: []*pb.BatchItem{
+					{Id: rid(20).Bytes(), Value: amath.Vector{1, 2}}, {Id: rid(21).Bytes(), Value: amath.Vector{2, 2}},
+					{Id: rid(22).Bytes(), Value: amath.Vector{1, 2, 3}}, {Id: rid(30).Bytes(), Value: amath.Vector{5, 5}}}})
+			}()
+			go func() {
+				defer wg.Done()
+				bu, ebu = srv.BatchUpdate(long, &pb.BatchRequest{DatasetId: dsId.Bytes(), Items: []*pb.BatchItem{
+					{Id: rid(30).Bytes(), Value: amath.Vector{9, 9}}, {Id: rid(31).Bytes(), Value: amath.Vector{9, 9}}}})
+			}()
+			go func() {
+				defer wg.Done()
+				br, ebr = srv.BatchRemove(long, &pb.BatchRequest{DatasetId: dsId.Bytes(), Items: []*pb.BatchItem{
+					{Id: rid(32).Bytes()}, {Id: rid(33).Bytes()}}})
+			}()
+			wg.Wait()
 			cancel()
-			c.OpLocal("Insert on the leader (node %d) of a 2-replica partition cut off from its peer, caller deadline 30 s -> %v after %s", lead, e, time.Since(t).Round(100*time.Millisecond))
+			c.OpLocal("Insert, BatchInsert, BatchUpdate, BatchRemove on the leader (node %d) of a 2-replica partition cut off from its peer, caller deadline 30 s -> %v / %v %v / %v %v / %v %v after %s", lead, e,
+				ebi, bi.GetErrors(), ebu, bu.GetErrors(), ebr, br.GetErrors(), time.Since(t).Round(100*time.Millisecond))
 			_, stored := d.VerifPartitionAt(0).Index().Get(rid(7))
 			if e == nil && stored != nil {
 				c.Violate("C11", "C11/success-without-apply", "Insert returned success although the proposal was never committed or applied (no quorum; proposal timeout fired while the caller's context was still alive)", c.History())
+			}
+			// batches: an id for which no error is reported must have been applied
+			acked := func(resp *pb.BatchResponse, err error, id int) bool {
+				if err != nil || resp == nil {
+					return false
+				}
+				_, bad := resp.GetErrors()[rid(id).String()]
+				return !bad
+			}
+			for _, id := range []int{20, 21, 22} {
+				if _, ge := idx.Get(rid(id)); acked(bi, ebi, id) && ge != nil {
+					c.Violate("C11", "C11/batch-success-without-apply", fmt.Sprintf("BatchInsert reported no error for id %d although its partition never committed the batch (no quorum; the partition's proposal timeout fired while the caller's context was alive): the item is not stored", id), c.History())
+				}
+			}
+			for _, id := range []int{30, 31} {
+				if v, ge := idx.Get(rid(id)); acked(bu, ebu, id) && (ge != nil || v[0] != 9) {
+					c.Violate("C11", "C11/batch-success-without-apply", fmt.Sprintf("BatchUpdate reported no error for id %d although its partition never committed the batch: the item still has its old vector", id), c.History())
+				}
+			}
+			for _, id := range []int{32, 33} {
+				if _, ge := idx.Get(rid(id)); acked(br, ebr, id) && ge == nil {
+					c.Violate("C11", "C11/batch-success-without-apply", fmt.Sprintf("BatchRemove reported no error for id %d although its partition never committed the batch: the item is still stored", id), c.History())
+				}
 			}
 			c.Nontrivial("never-applied")
 		}
